@@ -5,9 +5,9 @@ import random
 from vmon import gen, runner
 
 RULE = ("cross product of (every valid metric class + the 28 diagrams) x (19 -x dimensions + default) x 8 output "
-        "types x option variants (-r/-q none|single|several, -b, -agg) on four generated dataset shapes "
-        "(two probabilistic+ensemble inputs; single time and location; an all-missing lead time; one deterministic "
-        "input); quick = pairwise-covering sample (every metric x axis and metric x type), thorough = full product. "
+        "types x option variants (-r/-q none|single|several, -b, -agg) on five generated dataset shapes "
+        "(two probabilistic+ensemble inputs; single time and location; an all-missing lead time and location; one "
+        "deterministic input; two shuffled NetCDF inputs with a climatology); quick = pairwise-covering sample (every metric x axis and metric x type), thorough = full product. "
         "A case is one command line; its signature is (metric, axis, type, variant, shape); every combination is a "
         "distinct obligation, so every executed signature counts as non-trivial. Oracle: outcome must be 'output "
         "produced' or 'error message + non-zero exit'; anything else (exception, silent exit, no output) is a violation.")
@@ -24,7 +24,7 @@ AXES = [None, "time", "leadtime", "year", "month", "week", "day", "timeofday", "
         "dayofmonth", "location", "elev", "lat", "lon", "threshold", "leadtimeday", "no", "obs", "fcst"]
 TYPES = ["plot", "text", "csv", "map", "rank", "maprank", "impact", "mapimpact"]
 VARIANTS = ["none", "r1", "r3", "q2", "r1q1", "b_within", "agg_median", "b_below_eq", "r1_within", "q1", "agg_min", "agg_range", "agg_iqr", "agg_q", "agg_count"]
-SHAPES = ["prob2", "single", "allmiss", "det1"]
+SHAPES = ["prob2", "single", "allmiss", "det1", "nc2c"]
 
 
 def metric_names():
@@ -68,6 +68,19 @@ def build_shape(shape, workdir, seed):
                 c["p"] = [None] * len(inp["thresholds"])
                 c["q"] = [None] * len(inp["quantiles"])
                 c["e"] = [None] * inp["members"]
+    elif shape == "nc2c":
+        # two NetCDF inputs with shuffled dimension entries and mixed missing encodings, plus a climatology (-c)
+        ds = gen.make_dataset(rng, n_inputs=2, fmt="nc", clim=True, prob=True, ens=True, pit=True, miss=0.1, members=3,
+                              thresholds=[0.0, 5.0, 10.0], quantiles=[0.1, 0.5, 0.9])
+        for inp in ds["inputs"]:
+            order = {"time": list(range(len(inp["times"]))), "leadtime": list(range(len(inp["leadtimes"]))),
+                     "location": list(range(len(inp["locs"])))}
+            for k in order:
+                rng.shuffle(order[k])
+            inp["style"] = {"order": order, "enc": ["fill", "nan", "m999"], "vars": {"location": True, "lat": True, "lon": True, "altitude": True},
+                            "time_type": "f8"}
+        paths, cpath = gen.materialize(ds, d, rng)
+        return paths + ["-c", cpath]
     else:
         ds = gen.make_dataset(rng, n_inputs=1, fmt="text", miss=0.1, sparse=0.0)
     paths, _ = gen.materialize(ds, d, None)
